@@ -12,6 +12,7 @@ import (
 	"encoding/binary"
 	"fmt"
 	"os"
+	"strings"
 	"time"
 
 	dbm "github.com/33cn/chain33/common/db"
@@ -90,7 +91,10 @@ func newStoreWorld() (*netWorld, *stEnv, func()) {
 	w.mu.Lock()
 	w.selfH = 20000 // the serving hosts (height -1) stay out of the extended table: the handlers use env.RoutingTable
 	w.mu.Unlock()
-	dir, err := os.MkdirTemp("/var/tmp", "hC33store")
+	dir, err := os.Getenv("HC33_STORE_DIR"), error(nil)
+	if dir == "" {
+		dir, err = os.MkdirTemp("/var/tmp", "hC33store")
+	}
 	if err != nil {
 		netFail(err)
 	}
@@ -255,6 +259,9 @@ func (w *netWorld) storeRequest(q stReq) (stObs, error) {
 		return stObs{}, fmt.Errorf("request kind %q", q.Q)
 	}
 	class, data, err := w.exchange(proto, q.K, q.payload())
+	if err != nil && strings.Contains(err.Error(), "deadline") {
+		return stObs{C: "timeout"}, nil // the node neither answers nor closes the stream
+	}
 	if err != nil {
 		return stObs{}, err
 	}
